@@ -13,6 +13,7 @@ _reg('life', ['H6', 'H7', 'H3'])
 _reg('sshash', ['S4', 'D1', 'S1', 'S5'])
 _reg('vmloop', ['I8'])
 _reg('foot', ['F1'])
+_reg('frame', ['J3', 'J4'])
 
 PROPS = {
  'C11': dict(level='other', lemmas=['B1', 'B2', 'B3', 'B4', 'B5'],
@@ -28,7 +29,7 @@ PROPS = {
  'C05': dict(level='other', lemmas=['I1', 'I7', 'I8'],
    files=['src/bytecode_machine.cpp', 'src/bytecode_machine.hpp', 'src/instruction.hpp', 'src/virtual_machine.cpp', 'src/vm_interpreted.cpp', 'src/intrin_portable.h', 'src/instructions_portable.cpp', 'src/common.hpp', 'src/configuration.h', 'doc/specs.md'],
    explanation='TODO', trusted=['doc/specs.md chapter 4-5 transcription in spec/vm_ref.py'], outside=[]),
- 'C04': dict(level='translation_validation', lemmas=['J1', 'I1'],
+ 'C04': dict(level='translation_validation', lemmas=['J1', 'J3', 'J4', 'I1'],
    files=['src/jit_compiler_x86.cpp', 'src/jit_compiler_x86.hpp', 'src/jit_compiler_x86_static.S', 'src/bytecode_machine.cpp', 'src/bytecode_machine.hpp', 'src/vm_interpreted.cpp', 'src/vm_compiled.cpp', 'src/instruction_weights.hpp'],
    explanation='TODO', trusted=['x86-64 semantics of engine/x86sem.py (Intel SDM transcription for the ~60 forms used)', 'doc/specs.md chapter 5 transcription'], outside=[]),
  'C18': dict(level='other', lemmas=['R1', 'R2', 'R3'],
